@@ -18,11 +18,13 @@
        CycleSource directly under a DeferTick) are always accepted;
      - C41_emitter_arities_partial: every operator the emitter writes is in the operator
        table regenerated from /repo and is given a number of inputs within its hard range.
+     - C41_emitted_in_arities_partial: every node of every emitted graph has an in-degree
+       within its operator's hard input range.
    Missing for the full statement: a typing judgement of the Rust API (what rustc accepts);
    output-port arities for all flows (checked per corpus flow by `arities_ok` only); "rustc
    compiles the generated code" (sampled by building harness/h_hydro_b). *)
 From Coq Require Import List String NArith Bool.
-From HV Require Import HydroB.Model HydroB.GenOps HydroB.PEmit HydroB.PC41.
+From HV Require Import HydroB.Model HydroB.GenOps HydroB.PEmit HydroB.PArity HydroB.PC41.
 Import ListNotations.
 Open Scope N_scope.
 
@@ -45,6 +47,15 @@ Theorem C41_emitter_arities_partial :
   (forall k, op_takes GenOps.ops_table (sink_op k) 1 = true).
 Proof. exact frag_arity_all. Qed.
 Print Assumptions C41_emitter_arities_partial.
+
+(* every node of every emitted graph (any flow of the fragment the emitter does not panic on)
+   has an in-degree inside its operator's hard input range in the regenerated table *)
+Theorem C41_emitted_in_arities_partial : forall (rk : N -> N) (f : flow) (g : graph),
+  emit_flow GenOps.ops_table rk f = Some g ->
+  forall x, In x (g_nodes g) ->
+    op_takes GenOps.ops_table (n_op x) (indeg (g_edges g) (n_id x)) = true.
+Proof. exact emit_in_arities_gen. Qed.
+Print Assumptions C41_emitted_in_arities_partial.
 
 (* a forward reference completed with a collection that depends on it synchronously:
    no ranking guards it and the emitted graph has a same-tick cycle *)
